@@ -110,6 +110,7 @@ struct Grid<'a> {
     kmin: i128,
     kmax: i128,
     /// decode of integer k
+    domain: Vec<i128>,
     g: Box<dyn Fn(i128) -> Option<f64> + 'a>,
     /// encode real x -> integer on the wire, or error text
     e: Box<dyn Fn(f64) -> Result<i128, String> + 'a>,
@@ -188,7 +189,7 @@ fn check_interval(ctx: &mut Ctx, rng: &mut Rng, gr: &Grid, k: i128, excess_max: 
     let _ = gr.res_hint;
 }
 
-fn sample_ks(rng: &mut Rng, kmin: i128, kmax: i128, n: usize) -> Vec<i128> {
+fn sample_ks(rng: &mut Rng, kmin: i128, kmax: i128, n: usize, domain: &[i128]) -> Vec<i128> {
     // intervals [k, k+1] with k in kmin..kmax-1
     let hi = kmax - 1;
     if hi < kmin {
@@ -215,6 +216,11 @@ fn sample_ks(rng: &mut Rng, kmin: i128, kmax: i128, n: usize) -> Vec<i128> {
         let r = ((rng.u64() as u128) << 64 | rng.u64() as u128) % span;
         v.push(kmin + r as i128);
     }
+    // domain-significant codes (a full week, round decimals, ...) and their neighbours
+    for &k in domain {
+        v.push(k - 1);
+        v.push(k);
+    }
     v.retain(|k| *k >= kmin && *k <= hi);
     v.sort();
     v.dedup();
@@ -237,6 +243,7 @@ fn field_grid(f: &'static FieldDef) -> Grid<'static> {
         is32,
         kmin,
         kmax,
+        domain: crate::fields::domain_codes(f),
         g: Box::new(move |k| {
             let mut b = [0u8; 16];
             bits::write16(&mut b, 11, w, f.int_pattern(k));
@@ -272,6 +279,7 @@ fn bias_grid(number: u16) -> Grid<'static> {
         is32: true,
         kmin,
         kmax,
+        domain: vec![100, 1000, -100, -1000, 50, 500, 5000, -5000],
         g: Box::new(move |k| {
             let f = bias_frame(number, bits::twos_pattern(k, w) as u64, 0);
             let mf = MessageFrame::new(&f).ok()?;
@@ -323,7 +331,7 @@ pub fn run(p: &Params) -> Outcome {
         let part = ji % parts;
         let mut rng = Rng::derive(seed, "C11", ji as u64);
         let gr = if fi < n_scaled { field_grid(&FIELDS[scaled[fi]]) } else { bias_grid([1059u16, 1065, 1230][fi - n_scaled]) };
-        let ks = sample_ks(&mut rng, gr.kmin, gr.kmax, n_k / parts);
+        let ks = sample_ks(&mut rng, gr.kmin, gr.kmax, n_k / parts, &gr.domain);
         let mut excess_max = f64::NEG_INFINITY;
         for &k in &ks {
             check_interval(ctx, &mut rng, &gr, k, &mut excess_max);
